@@ -1,7 +1,7 @@
 (* C17/Property.v — the property theorems and nothing else. *)
-From Coq Require Import List Arith.
+From Coq Require Import List Arith String.
 Import ListNotations.
-From SM Require Import C17.Model C17.Proofs.
+From SM Require Import C17.Model C17.Proofs C17.Names.
 
 (* After ANY history of edits (each advancing the modification time) to the
    model file, the included C file or the templates, loads at any precision and
@@ -31,3 +31,16 @@ Theorem C17_load_total :
   forall (Src : Type) gen tag (s : st Src) bits, exists out, snd (step Src gen tag s (Load bits)) = Some out.
 Proof. exact load_some. Qed.
 Print Assumptions C17_load_total.
+
+(* the cache key is recoverable from the file name of the library: libraries of two different
+   (model id, source tag) pairs, or of two precisions, never share a name ("two different generated
+   sources or precisions never share a cached library") *)
+Theorem C17_library_name_injective : forall bits id t id' t' : string,
+  String.length t = String.length t' ->
+  lib_basename bits id t = lib_basename bits id' t' -> id = id' /\ t = t'.
+Proof. exact lib_name_injective. Qed.
+Print Assumptions C17_library_name_injective.
+Theorem C17_library_name_precision : forall b b' id t id' t' : string,
+  In b precisions -> In b' precisions -> lib_basename b id t = lib_basename b' id' t' -> b = b'.
+Proof. exact lib_name_precision. Qed.
+Print Assumptions C17_library_name_precision.
